@@ -63,6 +63,7 @@ var redirects = map[string]string{
 	"(*github.com/go-stomp/stomp.Subscription).Unsubscribe":   "verifStompUnsubscribe",
 	"(*github.com/go-stomp/stomp.Subscription).Active":        "verifStompActive",
 	"github.com/nats-io/nuid.Next":                            "verifNuidNext",
+	"(*net/http.Client).Do":                                   "verifHTTPDo",
 	"github.com/Workiva/frugal/compiler/parser.ParseFrugal":   "verifParseFrugal",
 }
 
@@ -274,6 +275,11 @@ func init() {
 		R.addPC(mkAnd(bvCmp("bvsle", mkConst(64, uint64(lo)), v), bvCmp("bvsle", v, mkConst(64, uint64(hi)))))
 		return symVal(v, types.Int)
 	}
+	// verifAdvanceClock(d): virtual time passes.
+	verifIntrinsics["verifAdvanceClock"] = func(fr *frame, args []value) value {
+		R.now += asInt64(args[0])
+		return nil
+	}
 	verifIntrinsics["verifLog"] = func(fr *frame, args []value) value {
 		R.ghost = append(R.ghost, toGoString(args[0]))
 		return nil
@@ -395,15 +401,32 @@ func init() {
 		call(fr, token.NoPos, a[1], nil)
 		return nil
 	}
+	// sync.Pool: Get returns an item that was Put earlier or a fresh one (both explored:
+	// the real pool may drop items at any time)
 	intrinsics["(*sync.Pool).Get"] = func(fr *frame, a []value) value {
-		st := (*ptrArg(a[0])).(structure)
+		p := ptrArg(a[0])
+		if items := R.pools[p]; len(items) > 0 {
+			if R.choose("sel", "sync.Pool.Get", make([]*Term, 2)) == 0 {
+				it := items[len(items)-1]
+				R.pools[p] = items[:len(items)-1]
+				return it
+			}
+		}
+		st := (*p).(structure)
 		newf := st[len(st)-1]
 		if f, ok := newf.(*ssa.Function); ok && f == nil {
 			return iface{}
 		}
 		return call(fr, token.NoPos, newf, nil)
 	}
-	intrinsics["(*sync.Pool).Put"] = func(fr *frame, a []value) value { return nil }
+	intrinsics["(*sync.Pool).Put"] = func(fr *frame, a []value) value {
+		p := ptrArg(a[0])
+		if R.pools == nil {
+			R.pools = map[*value][]value{}
+		}
+		R.pools[p] = append(R.pools[p], a[1])
+		return nil
+	}
 
 	// atomics on plain cells
 	for _, k := range []struct {
